@@ -4,10 +4,11 @@
    JSON text), the same with the trailing-characters option (sound: a value followed by anything; complete: every
    value followed by anything is accepted, except that a number is read as far as it goes, so what follows a number
    must not continue it), totality (no panic, no internal error code, every error positioned inside the text).
-   The lexeme-stream clauses (nesting, spans, rebuilt tree, Len) are covered by the correspondence
+   Len() of a document is a theorem as well (C12_len).  The other lexeme-stream clauses (nesting, spans, rebuilt tree)
+   are covered by the correspondence
    (model = implementation on all short token strings) plus the independent decoder used as oracle. *)
 From Coq Require Import List ZArith NArith Bool.
-From JS Require Import Base.Res Base.Lex Spec.JsonGrammar Model.JsonScan Proofs.JsonClasses Proofs.JsonSound Proofs.JsonMain Proofs.JsonComplete.
+From JS Require Import Base.Res Base.Lex Spec.JsonGrammar Model.JsonScan Proofs.JsonClasses Proofs.JsonSound Proofs.JsonMain Proofs.JsonComplete Proofs.JsonLen.
 Import ListNotations.
 Local Open Scope Z_scope.
 
@@ -62,6 +63,14 @@ Proof.
   - left; reflexivity.
   - left; reflexivity.
 Qed.
+
+(* Len(): for a document  blanks value blanks  (both option values) the length of the value without the blanks after it -
+   the blanks before it count.  The last lexeme of the stream ends at the value's last byte: the closing bracket's own
+   lexeme, or the literal's end lexeme produced by the byte after it or by the end of input *)
+Theorem C12_len : forall al w1 v w2, all_bytes (w1 ++ v ++ w2) -> ws w1 -> JValue v -> ws w2 ->
+  jlength al (w1 ++ v ++ w2) = Ok (Z.of_nat (length w1 + length v)).
+Proof. exact length_of_text. Qed.
+Print Assumptions C12_len.
 
 (* non-vacuity: concrete texts on both sides *)
 Example C12_accepts :
